@@ -389,6 +389,65 @@ let c07_line q id sel root blocks obs =
         if !fails = [] then "ok" else "fail:" ^ String.concat "," (List.rev !fails) in
     print_string id; print_char '\t'; print_string model_obs; print_char '\t'; print_endline verdict
 
+(* ======================================================================== C10 (selector clause) *)
+(* Record: id, "c10s", declaration, root, blocks, observation
+   observation = err | panic:<site> | huge:<how> | ok|A:<class>:<visits>:<loads>|M:<class>:<visits>:<loads> *)
+let two20 : z = z_of_int (1 lsl 20)
+let z_gt (a : z) (b : z) : bool =
+  (* a > b for the extracted Z *)
+  match a, b with
+  | Zpos _, (Z0 | Zneg _) -> true
+  | Z0, Zneg _ -> true
+  | Zpos _, Zpos _ -> String.length (hex_of_z a) > String.length (hex_of_z b) ||
+                      (String.length (hex_of_z a) = String.length (hex_of_z b) && hex_of_z a > hex_of_z b)
+  | _ -> false
+
+let c10_walk_class (o : outcome) : string =
+  match o with OPanic -> "panic:edge" | _ -> class_of o
+
+let count_evs evs =
+  List.fold_left (fun (v, l) e -> match e with EVisit _ -> (v + 1, l) | ELoad _ -> (v, l + 1)) (0, 0) evs
+
+(* None: the model does not predict this record (unsupported clause, or a range too wide to materialise) *)
+let c10s_model q sel root blocks : string option =
+  match compile (dm_of_string sel) with
+  | CErr -> Some "err"
+  | CUnsupported -> None
+  | COk s ->
+    if z_gt (compile_alloc s) two20 then None else begin
+      let g = parse_blocks blocks and r = dm_of_string root in
+      (* the fuel is the one C10_walk_total proves sufficient (graphs built from hashes have no link cycle) *)
+      let fl = if chain_ok g (nat_of_int (List.length g)) r then walk_fuel g r else fuel in
+      let part tag (evs, o) = let (v, l) = count_evs evs in Printf.sprintf "%s:%s:%d:%d" tag (c10_walk_class o) v l in
+      Some ("ok|" ^ part "A" (walk_adv q g fl r s) ^ "|" ^ part "M" (walk_matching q g fl r s))
+    end
+
+let c10s_oracle (obs : string) : string =
+  let fails = ref [] in
+  let fail x = if not (List.mem x !fails) then fails := x :: !fails in
+  if has_prefix obs "huge" then fail "selector_range_huge_alloc"
+  else if has_prefix obs "panic" then fail "selector_compile_panic"
+  else if obs = "err" then ()
+  else begin
+    match String.split_on_char '|' obs with
+    | ["ok"; a; m] ->
+      List.iter (fun part ->
+          match String.split_on_char ':' part with
+          | _ :: "panic" :: _ -> fail "selector_walk_panic"
+          | _ :: ("ok" | "load" | "other") :: _ -> ()
+          | _ -> fail "selector_walk_outcome") [a; m]
+    | _ -> fail "malformed_obs"
+  end;
+  if !fails = [] then "ok" else "fail:" ^ String.concat "," (List.rev !fails)
+
+let c10s_line q id sel root blocks obs =
+  let verdict = c10s_oracle obs in
+  match c10s_model q sel root blocks with
+  | Some mo -> print_string id; print_char '\t'; print_string mo; print_char '\t'; print_endline verdict
+  | None ->
+    print_string id; print_string "\tunpredicted\t";
+    print_endline (if has_prefix verdict "fail:" then verdict else "skip")
+
 (* ---- which deviations does the tree under test have?  The harnesses emit a fixed corpus first (ids k...) that
    contains a witness of every deviation; the switch setting that agrees with the implementation on most corpus
    records (ties: the one closest to [pinned]) is used as "the code as it is" for all records.  On the unchanged
@@ -399,6 +458,8 @@ let model_of_line q line : (string * string) option =
   match split_tab line with
   | _ :: "c15" :: sel :: root :: blocks :: ctl :: obs :: _ -> Some (c15_model q sel root blocks ctl, obs)
   | _ :: "c14v" :: sel :: root :: blocks :: obs :: _ -> Some (c14v_model q sel root blocks, obs)
+  | _ :: "c10s" :: sel :: root :: blocks :: obs :: _ ->
+    (match c10s_model q sel root blocks with Some mo -> Some (mo, obs) | None -> None)
   | _ :: "c07" :: sel :: root :: blocks :: obs :: _ ->
     (match compile (dm_of_string sel) with
      | COk s ->
@@ -425,6 +486,7 @@ let process line =
     match split_tab line with
     | id :: "c15" :: sel :: root :: blocks :: ctl :: obs :: _ -> c15_line !cur_q id sel root blocks ctl obs
     | id :: "c07" :: sel :: root :: blocks :: obs :: _ -> c07_line !cur_q id sel root blocks obs
+    | id :: "c10s" :: sel :: root :: blocks :: obs :: _ -> c10s_line !cur_q id sel root blocks obs
     | id :: "c14v" :: sel :: root :: blocks :: obs :: _ -> c14v_line !cur_q id sel root blocks obs
     | id :: "c14p" :: root :: blocks :: path :: obs :: _ -> c14p_line id root blocks path obs
     | id :: "c14r" :: segs :: obs :: _ -> c14r_line id segs obs
